@@ -125,6 +125,19 @@ def M_decode_utf8_lossy(it, ctx, args, st):
     yield st, percent_decode(pd.fields[0])           # Cow<str> as an owned bounded string (inputs are ASCII: stated)
 
 
+def M_decode_utf8(it, ctx, args, st):
+    """PercentDecode::decode_utf8 (strict): Ok(decoded text) iff the decoded bytes are valid UTF-8, else Err(Utf8Error)"""
+    from mirsym.harness import utf8_valid
+    pd = st.deref_all(args[0]) if isinstance(args[0], Ptr) else args[0]
+    known = encoded_input(st, pd.fields[0])
+    if known is not None:
+        yield st, it.ok(known)
+        return
+    dec = percent_decode(pd.fields[0])
+    for s2, good in fork_bool(it, st, utf8_valid(dec)):
+        yield s2, (it.ok(dec) if good else it.err(Agg('std::str::Utf8Error', ())))
+
+
 def M_cow_as_ref(it, ctx, args, st):
     p = args[0]
     v = st.deref(p)
@@ -273,6 +286,7 @@ def T_handler(it, ctx, args, st):
 MODELS = [
     (r'percent_encoding::percent_decode_str', M_percent_decode_str),
     (r'percent_encoding::PercentDecode::<?.*>?::decode_utf8_lossy|percent_encoding::PercentDecode::decode_utf8_lossy', M_decode_utf8_lossy),
+    (r'percent_encoding::PercentDecode::<?.*>?::decode_utf8|percent_encoding::PercentDecode::decode_utf8', M_decode_utf8),
     (r'<.* as std::convert::AsRef<str>>::as_ref', M_cow_as_ref, lambda it, ctx, args, st: isinstance(args[0], Ptr) and isinstance(st.deref_all(args[0]), BStr)),
     (r'(?:core|std)::str::<impl str>::split::<char>', M_str_split_char),
     (r'(?:core|std)::str::<impl str>::strip_prefix::<&str>', M_strip_prefix),
